@@ -5,7 +5,7 @@ RULE = ("3 ML-DSA sets: keys from random seeds; signing through the API under co
         "pure / SHA-256 / SHA-512 pre-hash; each API signature must equal the raw signature of the FIPS 204 representative M' built "
         "independently in Python (hashlib digests); verification under the same framing must accept, under every other "
         "(context, mode, hash) framing of the same message -- including ctx/message pairs with the same concatenation -- must reject; "
-        "contexts > 255 bytes must give none / false. distinct_nontrivial = distinct requests.")
+        "contexts > 255 bytes must give none / false. Messages of 2^16+1 and 2^20+1 bytes go through the same API = raw and cross-mode checks on the implementation. distinct_nontrivial = distinct requests.")
 EXPLANATION = ("Props/C07.lean: framing = FIPS 204 M', injectivity of the framing, >255 refusal, and acceptance of one signature for two "
                "different representatives exhibits an explicit SHAKE-256 collision. The tie checks all ordered framing pairs on the code.")
 ASSUMPTIONS = ["SHA-256/512 digests from python hashlib are given to the model (sha2 crate is external to the crate under test)"]
@@ -43,6 +43,16 @@ def followup(stage, lines, model, checked, release, tier, rng):
                     raw = K.sign_raw(s, K.frame(msg, ctx, ph), sk)
                     _st[s]["sigs"].append((msg, ctx, ph, a, raw))
                     L.append(a); L.append(raw)
+            # long messages (size-class boundaries 2^16, 2^20: where a length-dependent fast path would sit); implementation only:
+            # API signature = raw signature of M', and cross-mode verification
+            _st[s]["long"] = []
+            for n in ((1 << 16) + 1, (1 << 20) + 1):
+                msg = R(n)
+                for (ctx, ph) in ((None, None), (b"ab", None), (None, "sha512")):
+                    a = "@impl " + (K.api_sign(s, sk, msg, ctx) if ph is None else K.api_prehash_sign(s, sk, msg, ctx, 0, ph))
+                    raw = "@impl " + K.sign_raw(s, K.frame(msg, ctx, ph), sk)
+                    _st[s]["long"].append((msg, ctx, ph, a, raw))
+                    L.append(a); L.append(raw)
             # |ctx| = 256 + k: `len as u8` wraps to k, and 0 || k || ctx || M is also the framing of (ctx[:k], ctx[k:] || M):
             # a signature made for the latter must NOT verify for (ctx, M)
             _st[s]["wrap"] = []
@@ -77,6 +87,14 @@ def followup(stage, lines, model, checked, release, tier, rng):
                     v = K.api_verify(s, st["pk"], b"bc", sig, b"a"); st["ver"].append((v, False)); L.append(v)
                 if ctx == b"a" and msg == b"bc" and ph is None:
                     v = K.api_verify(s, st["pk"], b"c", sig, b"ab"); st["ver"].append((v, False)); L.append(v)
+            for (msg, ctx, ph, a, raw) in st.get("long", []):
+                sig = K.sig_of(checked[idx[a]])
+                if sig is None:
+                    continue
+                for (c2, p2) in ((None, None), (b"ab", None), (None, "sha512"), (None, "sha256")):
+                    v = "@impl " + (K.api_verify(s, st["pk"], msg, sig, c2) if p2 is None else K.api_prehash_verify(s, st["pk"], msg, sig, c2, p2))
+                    st["ver"].append((v, K.frame(msg, ctx, ph) == K.frame(msg, c2, p2)))
+                    L.append(v)
             for (a, c, payload) in st.get("wrap", []):
                 sg = K.sig_of(checked[idx[a]])
                 if sg:
@@ -97,7 +115,7 @@ def violated_all(lines, model, checked, release):
     out = []
     idx = {l: i for i, l in enumerate(lines)}
     for s, st in _st.items():
-        for (msg, ctx, ph, a, raw) in st.get("sigs", []):
+        for (msg, ctx, ph, a, raw) in st.get("sigs", []) + st.get("long", []):
             for prof, ans in (("checked", checked), ("wrapping", release)):
                 if a in idx and raw in idx and ans[idx[a]] != ans[idx[raw]]:
                     out.append((idx[a], "%s build: %s: the API does not sign the FIPS 204 representative (mode byte / |ctx| / ctx / OID / digest) for ctx=%s ph=%s" % (prof, s, K.ctxs(ctx)[:20], ph)))
@@ -108,6 +126,8 @@ def violated_all(lines, model, checked, release):
                     out.append((idx[v], "%s build: %s: verification under %s framing answered %s" % (prof, s, "the same" if same else "a different", ans[idx[v]])))
     for i, l in enumerate(lines):
         t = l.split()
+        if t[0] == "@impl":
+            t = t[1:]
         if "::SecretKey::" in t[0] and t[3] != "none" and len(K.unhx(t[3])) > 255:
             for prof, ans in (("checked", checked), ("wrapping", release)):
                 if ans[i] != "ok none":
